@@ -324,7 +324,7 @@ func runC14(w *explore.Worker) {
 	maxBound := 0
 	c14Baseline(w)
 	for _, j := range jobs {
-		cfg := explore.SchedConfig{Harness: "C14" + j.p.Harness, Params: j.p.String(), Bound: j.bound, FreeCost: 1, MaxSteps: 20000}
+		cfg := explore.SchedConfig{Harness: "C14" + j.p.Harness, Params: j.p.String(), Bound: j.bound, FreeCost: 1, MaxSteps: 20000, Suspend: true}
 		body := c14Body(j.p)
 		if w.Index == 0 {
 			explore.DeterminismGuard(w, cfg.Harness+cfg.Params, nil, cfg.MaxSteps, body)
